@@ -4,6 +4,7 @@ import c05
 
 META = dict(c05.META)
 META['explanation'] = c05.META['explanation'].replace('connection-setup', 'active-session (global channel, slow path and fast path)')
+META['explanation'] += ' (R06.2) every array field of a message constructor defaults to a readable Array::new(factory); allocations are bounded in bytes (element size x count).'
 
 ENTRIES = ['core::client::RdpClient::<S>::read', 'core::global::Client::read', 'core::mcs::Client::<S>::read', 'core::x224::Client::<S>::read',
            'core::tpkt::Client::<S>::read', 'core::client::RdpClient::<S>::write', 'core::client::RdpClient::<S>::try_write']
